@@ -113,10 +113,17 @@ func init() {
 			}
 			nextBlock := func() {
 				w.setHeight(w.height + 1)
+				res := "ok"
 				func() {
-					defer func() { _ = recover() }()
+					defer func() {
+						if r := recover(); r != nil {
+							res = "panic"
+						}
+					}()
 					clp.BeginBlocker(w.ctx, w.app.ClpKeeper)
 				}()
+				// the liquidity-protection part of BeginBlocker is in the model; the PMTP part is taken over below
+				w.out.Emit(fmt.Sprintf("lpbegin %d", w.app.ClpKeeper.GetLiquidityProtectionParams(w.ctx).EpochLength), res, "lpbegin", false)
 				r := w.app.ClpKeeper.GetPmtpRateParams(w.ctx).PmtpCurrentRunningRate.BigInt()
 				w.cfg("r " + r.String())
 			}
